@@ -1,3 +1,8 @@
 import CbModel.Preproc
 import CbModel.PreprocSpec
 import CbModel.FlatIndex
+import CbModel.Sexp
+import CbModel.Ref.Syntax
+import CbModel.Ref.Eval
+import CbModel.Ref.Read
+import CbModel.Ref.Print
